@@ -294,9 +294,11 @@ Section Exits3.
   Lemma leaf3_Hth : 1 + theta El <> 0.
   Proof.
     destruct (leaf3_facts _ _ _ _ _ _ _ Hleaf) as [_ [_ [_ [_ G]]]].
-    unfold gen_init_guard3 in G. rewrite ?cosIO_spec, ?oe_incl, ?half_angle_1pcos in G.
+    unfold gen_init_guard3 in G. rewrite ?cosIO_spec, ?oe_incl in G. half_angle_in G (P_Sgp4Init.i0 incl_deg).
     replace (cos (P_Sgp4Init.i0 incl_deg)) with (theta El) in G by reflexivity. fold El in G.
-    intros Z. rewrite Z, Rabs_R0 in G. lra.
+    intros Z. replace (2 * ((1 + theta El) / 2)) with (1 + theta El) in G by field.
+    replace ((1 + theta El) / 2 * 2) with (1 + theta El) in G by field.
+    rewrite Z, Rabs_R0 in G. lra.
   Qed.
 
   Lemma leaf3_e_le : e0 <= 1 / 10000.
